@@ -51,6 +51,8 @@ def as_matrix(v, what):
 
 
 def run(ctx):
+    from xfabsa import numeric as _N
+    _N.alias_rule(ctx, 'C01', ['xfab/tools.py', 'xfab/laue.py'])
     ctx.rule("shape", "sub-diagonal entries of A and B are the constant 0")
     ctx.rule("ref", "entry of the returned value == unique closed form (normal-form equality)")
     ctx.rule("sign", "diagonal entries are positive in the sign domain under a,b,c,sin(angles),W > 0")
